@@ -299,6 +299,13 @@ func execC09(c *child.Ctx, k pipeCase, cj []byte, traces, pairs map[uint64]struc
 			cr.eofAt = append([]int(nil), k.EOFAt...)
 			cr.pauseMs = append([]int(nil), k.PauseMs...)
 		}
+		if si > 0 && k.TolMs > 0 && len(input) > 0 {
+			// a later source through the same AppCore begins with a quiet spell: its very
+			// first read reports end of file (or a timeout), then the data comes
+			cr.timeouts = si%2 == 0
+			cr.eofAt = []int{0}
+			cr.pauseMs = []int{0}
+		}
 		if si == 0 {
 			firstReader = cr
 		}
@@ -514,6 +521,9 @@ func monC09(c *child.Ctx, replay json.RawMessage) {
 					k.PauseMs = append(k.PauseMs, 0)
 				}
 			}
+		}
+		if k.TolMs > 0 && len(k.More) > 0 {
+			c.Count("runs_with_later_sources_that_start_quiet", 1)
 		}
 		if k.TolMs > 0 && len(k.EOFAt) > 0 && (i/8)%3 == 1 {
 			// a pause after the first end-of-file that is longer than the tolerance
